@@ -29,6 +29,10 @@ class Fns:
     def sortkey(self, stage):
         return SortKey()
 
+    def groupfn(self, mod, stage):
+        from .terms import GroupFn
+        return GroupFn(mod)
+
 
 def make_source(ld, spec):
     kind, n, warranty = spec[0], spec[1], spec[2]
@@ -85,6 +89,10 @@ def build(ld, prog, fns=None, stage_prefix='s', hook=None):
         # ---- the real operation
         if k == 'map':
             ds = ds.map(fns.fn(op[1], stage))
+        elif k == 'reshuffle':
+            ds = ds.shuffle(True, rng=np.random.RandomState(op[1]))
+        elif k == 'localshuffle':
+            ds = ds.shuffle(True, rng=np.random.RandomState(op[2]), buffer_size=op[1])
         elif k == 'mapfail':
             ds = ds.map(fns.raiser(op[1], op[2], stage))
         elif k == 'parmap':
@@ -112,6 +120,22 @@ def build(ld, prog, fns=None, stage_prefix='s', hook=None):
                                       and m.n) else ['k0']
                 ks = refmodel.resolve_key_form(payload, labels)
                 ds = ds[list(ks) if kind == 'keylist' else tuple(ks)]
+        elif k == 'concat3':
+            mid, last = (build(ld, x, fns, stage_prefix=stage + 'c')
+                         for x in refmodel.concat3_operands(op[1]))
+            form = op[2]
+            if form == 'method':
+                ds = ds.concatenate(mid, last)
+            elif form == 'method-list':
+                ds = ds.concatenate([mid, last])
+            elif form == 'function':
+                ds = ld.concatenate(ds, mid, last)
+            else:
+                ds = ld.concatenate((ds, mid, last))
+        elif k == 'groupby':
+            mod = op[1]
+            gf = fns.groupfn(mod, stage)
+            ds = ds.groupby(gf)[op[2]]
         elif k == 'concat':
             ds = ds.concatenate(operand_ds)
         elif k == 'intersperse':
@@ -166,6 +190,9 @@ def build(ld, prog, fns=None, stage_prefix='s', hook=None):
             try:
                 if k in BINARY and operand_m is None:
                     m = None
+                elif k == 'concat3':
+                    m = refmodel.apply(m, op, tuple(
+                        refmodel.run(x) for x in refmodel.concat3_operands(op[1])))
                 else:
                     m = refmodel.apply(m, op, operand_m)
             except (Unsupported, Skip):
@@ -223,6 +250,9 @@ def alphabet(n, kind, small=False):
             ('split', 1, 0), ('cache',), ('ecache',), ('catch',), ('copy',), ('freeze',),
             ('prefetch1', 1), ('prefetch1', 2), ('prefetcht', 2, 2), ('prefetcht', 2, 3),
             ('apply_eager', 'h'), ('apply_lazy', 'h')]
+    ops += [('concat3', kind, 'method'), ('concat3', kind, 'method-list'),
+            ('concat3', kind, 'function'), ('concat3', kind, 'function-tuple'),
+            ('groupby', 2, 0), ('groupby', 2, 1), ('groupby', 3, 2)]
     return ops
 
 
